@@ -345,8 +345,131 @@ def dump_cplex(model, namer, res_names, den):
     return {"vars": vs, "rows": rows, "obj": obj, "den": den, "obj_const": o.get_constant()}
 
 
+
 # --------------------------------------------------------------------------
-def run_case(d):
+# adversarial probing: the SAME live constraint system, re-optimised under objectives aimed at the negation of
+# each property; every assignment found is handed to the monitors by the harness (independent of the Coq model)
+# --------------------------------------------------------------------------
+class GurobiProbe:
+    def __init__(self, model, namer, optimize):
+        import gurobipy as gp
+        self.gp = gp
+        self.optimize = optimize       # the UNWRAPPED gurobipy.Model.optimize
+        self.model = model
+        self.names = {tuple(namer.var(v.VarName)): v.VarName for v in model.getVars()}
+        self.objval = model.ObjVal if model.SolCount > 0 else None
+
+    def solve(self, obj_terms, maximize, extra, keep_optimal=False):
+        gp = self.gp
+        m = self.model.copy()
+        m.Params.OutputFlag = 0
+        m.Params.Threads = 1
+        m.Params.MIPGap = 0
+        m.Params.TimeLimit = 10
+        gv = {k: m.getVarByName(n) for k, n in self.names.items()}
+        if keep_optimal and self.objval is not None:
+            m.addConstr(m.getObjective() >= self.objval - 1e-6)
+        for terms, sense, rhs in extra:
+            e = gp.quicksum(c * gv[k] for c, k in terms)
+            m.addConstr(e == rhs if sense == "=" else (e <= rhs if sense == "<" else e >= rhs))
+        m.setObjective(gp.quicksum(c * gv[k] for c, k in obj_terms), gp.GRB.MAXIMIZE if maximize else gp.GRB.MINIMIZE)
+        self.optimize(m)
+        if m.SolCount == 0:
+            return None
+        return m.ObjVal, [[list(k), int(round(v.X))] for k, v in gv.items() if abs(v.X) > 1e-6 and k[0] != 7]
+
+
+class CplexProbe:
+    def __init__(self, model, namer, sol, solve):
+        self.model = model
+        self.solve_fn = solve          # the UNWRAPPED docplex Model.solve
+        self.names = {tuple(namer.var(v.name)): v.name for v in model.iter_variables()}
+        self.objval = sol.objective_value if sol else None
+
+    def solve(self, obj_terms, maximize, extra, keep_optimal=False):
+        m = self.model.clone()
+        try:
+            m.context.cplex_parameters.threads = 1
+            m.parameters.mip.tolerances.mipgap = 0
+            m.parameters.timelimit = 10
+            gv = {k: m.get_var_by_name(n) for k, n in self.names.items()}
+            if keep_optimal and self.objval is not None:
+                m.add_constraint(m.objective_expr >= self.objval - 1e-6)
+            for terms, sense, rhs in extra:
+                e = m.sum(c * gv[k] for c, k in terms)
+                m.add_constraint(e == rhs if sense == "=" else (e <= rhs if sense == "<" else e >= rhs))
+            m.set_objective("max" if maximize else "min", m.sum(c * gv[k] for c, k in obj_terms))
+            sol = self.solve_fn(m)
+            if not sol:
+                return None
+            return sol.objective_value, [[list(k), int(round(sol.get_value(v)))] for k, v in gv.items()
+                                         if abs(sol.get_value(v)) > 1e-6 and k[0] != 7]
+        finally:
+            m.end()
+
+
+def run_probes(pr, inst, spec):
+    """spec: {"kinds": [...], "max": n, "seed": s}.  Returns a list of {"kind", "desc", "obj", "values"}."""
+    import random
+    rng = random.Random(spec.get("seed", 0))
+    nmax = int(spec.get("max", 3))
+    tasks = inst["tasks"]
+    cells = sorted(k for k in pr.names if k[0] == 0)
+    by_task = {}
+    for k in cells:
+        by_task.setdefault(k[1], []).append(k)
+    out = []
+
+    def add(kind, desc, r):
+        if r is not None:
+            out.append({"kind": kind, "desc": desc, "obj": float(r[0]), "values": r[1]})
+    for kind in spec.get("kinds", []):
+        if kind == "c11" and inst["flavour"] == "gurobi":
+            pairs = [(i, q) for i, t in enumerate(tasks) for q in t["parents"]
+                     if t["state"][0] != "running" and i in by_task and (4, i) in pr.names]
+            rng.shuffle(pairs)
+            for i, q in pairs[:nmax]:
+                placed = [([(1, k) for k in by_task[i]], "=", 1)]
+                if tasks[q]["state"][0] == "running":
+                    add(kind, "minimise start of %s (running parent %s)" % (tasks[i]["name"], tasks[q]["name"]),
+                        pr.solve([(1, (4, i))], False, placed))
+                elif (4, q) in pr.names:
+                    obj = [(1, (4, i)), (-1, (4, q))] + [(-tasks[q]["strats"][k[4]][0], k) for k in by_task.get(q, [])]
+                    add(kind, "minimise start(%s) - start(%s) - chosen runtime of the parent" % (tasks[i]["name"], tasks[q]["name"]),
+                        pr.solve(obj, False, placed))
+        elif kind == "c10" and cells:
+            for _ in range(nmax):
+                k0 = rng.choice(cells)
+                s0 = tasks[k0[1]]["strats"][k0[4]]
+                reqs = [r for r, q in s0[1] if q > 0]
+                if not reqs or s0[0] <= 0:
+                    continue
+                r = rng.choice(reqs)
+                tau = rng.randint(k0[3], k0[3] + s0[0] - 1)
+                obj = []
+                for k in cells:
+                    st = tasks[k[1]]["strats"][k[4]]
+                    q = dict(st[1]).get(r, 0)
+                    if k[2] == k0[2] and q > 0 and k[3] <= tau < k[3] + st[0]:
+                        obj.append((q, k))
+                add(kind, "maximise the load of worker %d, resource %d at instant %d" % (k0[2], r, tau), pr.solve(obj, True, []))
+        elif kind == "c12" and inst["enforce"]:
+            cand = [i for i in by_task]
+            rng.shuffle(cand)
+            for i in cand[:nmax]:
+                obj = [(k[3] + tasks[i]["strats"][k[4]][0] - tasks[i]["deadline"], k) for k in by_task[i]]
+                add(kind, "maximise the lateness of %s" % tasks[i]["name"],
+                    pr.solve(obj, True, [([(1, k) for k in by_task[i]], "=", 1)]))
+        elif kind == "c14" and cells and pr.objval is not None:
+            add(kind, "fewest placements among the optimal assignments", pr.solve([(1, k) for k in cells], False, [], keep_optimal=True))
+            if nmax > 1 and len(by_task) > 1:
+                i = rng.choice(sorted(by_task))
+                add(kind, "optimal assignment avoiding %s if possible" % tasks[i]["name"],
+                    pr.solve([(1, k) for k in by_task[i]], False, [], keep_optimal=True))
+    return out
+
+# --------------------------------------------------------------------------
+def run_case(d, probe=None):
     workload, wps, info = build_world(d)
     res_names = info["res_names"]
     cfg = d["cfg"]
@@ -407,6 +530,11 @@ def run_case(d):
                                      if abs(v.X) > 1e-9]
                     cap["objval"] = scaled_int(model.ObjVal - cap["dump"]["obj_const"], cap["dump"]["den"], "objective value")
                     cap["objbound"] = float(model.ObjBound)
+                if probe:
+                    try:
+                        cap["probes"] = run_probes(GurobiProbe(model, nm, orig_opt), cap["inst"], probe)
+                    except Exception as e:      # probing must never disturb the run of the real scheduler
+                        cap["probe_error"] = "%s: %s" % (type(e).__name__, str(e)[:300])
             return r
         gp.Model.optimize = optimize
         restore.append(lambda: setattr(gp.Model, "optimize", orig_opt))
@@ -435,6 +563,11 @@ def run_case(d):
                 cap["values"] = vals
                 cap["objval"] = scaled_int(sol.objective_value - cap["dump"]["obj_const"], den, "objective value")
                 cap["status"] = 2
+                if probe:
+                    try:
+                        cap["probes"] = run_probes(CplexProbe(model, nm, sol, orig_solve), cap["inst"], probe)
+                    except Exception as e:
+                        cap["probe_error"] = "%s: %s" % (type(e).__name__, str(e)[:300])
             elif "dump" in cap:
                 cap["status"] = 3
             return sol
@@ -462,7 +595,7 @@ def run_case(d):
         for r in restore:
             r()
     out["model_built"] = cap["calls"]
-    for k in ("inst", "dump", "values", "objval", "status", "unsupported", "objbound"):
+    for k in ("inst", "dump", "values", "objval", "status", "unsupported", "objbound", "probes", "probe_error"):
         if k in cap:
             out[k] = cap[k]
     if placements is not None:
@@ -503,7 +636,7 @@ def world_state(info, wps):
 results = []
 for case in payload["cases"]:
     try:
-        results.append(run_case(case))
+        results.append(run_case(case, payload.get("probe")))
     except Unsupported as e:
         results.append({"unsupported": str(e)})
 implutil.end({"results": results})
